@@ -268,9 +268,10 @@ Section Inv.
   Hypothesis Hlit : forall t, keep t = true -> is_lit (tv t) = true.
   Notation K := (filter keep).
 
-  (** a column type all of whose spellings have the content of its printed form *)
+  (** a column type all of whose spellings (as lexed tokens) have the content of its printed form;
+      discharged for every type by [DdlCoreContent.col_faithful_all] *)
   Definition ty_faithful (t : DT.dt) : Prop :=
-    forall l r, dtype d l = Ok (t, r) -> K l = K (type_toks T t) ++ K r.
+    forall l r, Forall lexed l -> dtype d l = Ok (t, r) -> K l = K (type_toks T t) ++ K r.
   Definition col_faithful (c : column_def) : Prop :=
     match ctype c with DT.DUnspecified => True | t => ty_faithful t end.
 
@@ -692,7 +693,7 @@ Section Inv.
         assert (Hf' : ty_faithful ty).
         { unfold col_faithful in Hf. cbn [ctype] in Hf. destruct ty; try exact Hf. congruence. }
         pose proof (Forall_lexed_tl _ _ Hl) as Hl0.
-        cbn [filter]. rewrite K_app. rewrite (Hf' _ _ Et). rewrite (Lk (suf_Forall _ _ _ Hts Hl0) Hc).
+        cbn [filter]. rewrite K_app. rewrite (Hf' _ _ Hl0 Et). rewrite (Lk (suf_Forall _ _ _ Hts Hl0) Hc).
         rewrite <- ?app_assoc. destruct (keep n); cbn [app]; rewrite <- ?app_assoc; reflexivity.
   Qed.
 
